@@ -405,11 +405,19 @@ theorem nh_bmp_copyRowIfNeeded (st : Settings) (dimx dimy : Int) (r : Bmp.Rle) (
 theorem nh_bmp_putRun (r : Bmp.Rle) (vals : List (Nat × Nat × Nat × Nat)) : NH (Bmp.putRun r vals) := by
   unfold Bmp.putRun; nh_tac
 
-theorem nh_bmp_palAt (pal : Bmp.Palette) (dcl c : Int) : NH (Bmp.palAt pal dcl c) := by
-  unfold Bmp.palAt; nh_tac
+theorem nh_taintIf (c : Bool) (w : String) : NH (taintIf c w) := by
+  unfold taintIf; split
+  · exact nh_setTaint w
+  · exact nh_pure _
 
-theorem nh_bmp_palAt' (pal : Bmp.Palette) (dcl c n : Int) : NH (Bmp.rleLoop.palAt' pal dcl c n) := by
-  unfold Bmp.rleLoop.palAt'
+theorem nh_bmp_palAt (pal : Bmp.Palette) (dcl c : Int) : NH (Bmp.palAt pal dcl c) := by
+  unfold Bmp.palAt
+  split
+  · apply nh_bind (nh_taintIf _ _); intro _; exact nh_pure _
+  · exact nh_ubAt _ _
+
+theorem nh_bmp_palAtIf (pal : Bmp.Palette) (dcl c n : Int) : NH (Bmp.palAtIf pal dcl c n) := by
+  unfold Bmp.palAtIf
   split
   · exact nh_pure _
   · exact nh_bmp_palAt _ _ _
@@ -442,6 +450,24 @@ theorem nh_bmp_absRun4 (pal : Bmp.Palette) (dcl count second : Int) : ∀ (fuel 
     · exact nh_pure _
 
 
+theorem nh_bmp_copyRowIf (c : Bool) (st : Settings) (dimx dimy : Int) (r : Bmp.Rle) (d : Dest) : NH (Bmp.copyRowIf c st dimx dimy r d) := by
+  unfold Bmp.copyRowIf
+  split
+  · exact nh_bmp_copyRowIfNeeded _ _ _ _ _
+  · exact nh_pure _
+
+theorem nh_bmp_absRun (i : Bmp.Info) (pal : Bmp.Palette) (count second : Int) (r : Bmp.Rle) : NH (Bmp.absRun i pal count second r) := by
+  unfold Bmp.absRun
+  split
+  · exact nh_bmp_absRun4 _ _ _ _ _ _ _
+  · exact nh_bmp_absRun8 _ _ _ _
+
+theorem nh_bmp_padWord (i : Bmp.Info) (pitch : Int) (r : Bmp.Rle) : NH (Bmp.padWord i pitch r) := by
+  unfold Bmp.padWord
+  split
+  · apply nh_bind (nh_seekCur 1); intro _; exact nh_pure _
+  · exact nh_pure _
+
 /-- BMP RLE main loop: with more fuel than unread bytes it never runs out of fuel
     (every iteration consumes at least the two bytes of its code pair) -/
 theorem bmp_rleLoop_nhs (i : Bmp.Info) (pitch : Int) (st : Settings) (dimx dimy : Int) (pal : Bmp.Palette) (yend yinc : Int) :
@@ -459,12 +485,12 @@ theorem bmp_rleLoop_nhs (i : Bmp.Info) (pitch : Int) (st : Settings) (dimx dimy 
     try dsimp only
     split
     · split
-      · apply NHs.bind (nh_bmp_palAt' _ _ _ _ s2); intro p0 s3 _ h3
-        apply NHs.bind (nh_bmp_palAt' _ _ _ _ s3); intro p1 s4 _ h4
+      · apply NHs.bind (nh_bmp_palAtIf _ _ _ _ s2); intro p0 s3 _ h3
+        apply NHs.bind (nh_bmp_palAtIf _ _ _ _ s3); intro p1 s4 _ h4
         try dsimp only
         apply NHs.bind (nh_bmp_putRun _ _ s4); intro r' s5 _ h5
         exact bmp_rleLoop_nhs i pitch st dimx dimy pal yend yinc fuel _ _ s5 (by omega)
-      · apply NHs.bind (nh_bmp_palAt' _ _ _ _ s2); intro p s3 _ h3
+      · apply NHs.bind (nh_bmp_palAtIf _ _ _ _ s2); intro p s3 _ h3
         apply NHs.bind (nh_bmp_putRun _ _ s3); intro r' s4 _ h4
         exact bmp_rleLoop_nhs i pitch st dimx dimy pal yend yinc fuel _ _ s4 (by omega)
     · split
@@ -479,42 +505,15 @@ theorem bmp_rleLoop_nhs (i : Bmp.Info) (pitch : Int) (st : Settings) (dimx dimy 
           · apply NHs.bind (nh_readU8 s2); intro dx s3 _ h3
             apply NHs.bind (nh_readU8 s3); intro dy0 s4 _ h4
             try dsimp only
-            have tail2 : ∀ (d' : Dest) (s5 : St), s5.rest.length ≤ s4.rest.length →
-                NHs (if r.x + dx > i.width then ioErr
-                     else if (if yinc > 0 then r.y + dy0 * yinc > yend else r.y + dy0 * yinc < yend) then ioErr
-                     else Bmp.rleLoop i pitch st dimx dimy pal yend yinc fuel
-                            { buf := r.buf, x := r.x + dx, xend := ↑r.buf.length, y := r.y + dy0 * yinc, streamPos := r.streamPos + 2 + 2 } d') s5 := by
-              intro d' s5 h5
-              repeat' (first
-                | exact nh_ioErr s5
-                | exact bmp_rleLoop_nhs i pitch st dimx dimy pal yend yinc fuel _ _ s5 (by omega)
-                | split)
-            split
-            · apply NHs.bind (nh_bmp_copyRowIfNeeded _ _ _ _ _ s4); intro d' s5 _ h5
-              exact tail2 d' s5 h5
-            · apply NHs.bind (nh_pure _ s4); intro d' s5 _ h5
-              exact tail2 d' s5 h5
-          · have tail : ∀ (r' : Bmp.Rle) (s3 : St), s3.rest.length ≤ s2.rest.length →
-                NHs (if ((r'.streamPos - Bmp.getOffset i pitch 0) % 2 == 1) = true then do
-                        seekCur 1
-                        let r ← pure { r' with streamPos := r'.streamPos + 1 }
-                        Bmp.rleLoop i pitch st dimx dimy pal yend yinc fuel r d
-                      else do
-                        let r ← pure r'
-                        Bmp.rleLoop i pitch st dimx dimy pal yend yinc fuel r d) s3 := by
-              intro r' s3 h3
-              split
-              · apply NHs.bind (nh_seekCur 1 s3); intro _ s4 _ h4
-                apply NHs.bind (nh_pure _ s4); intro r'' s5 _ h5
-                exact bmp_rleLoop_nhs i pitch st dimx dimy pal yend yinc fuel _ _ s5 (by omega)
-              · apply NHs.bind (nh_pure _ s3); intro r'' s4 _ h4
-                exact bmp_rleLoop_nhs i pitch st dimx dimy pal yend yinc fuel _ _ s4 (by omega)
-            split
-            · apply NHs.bind (nh_bmp_absRun4 _ _ _ _ _ _ _ s2); intro r' s3 _ h3
-              exact tail r' s3 h3
-            · apply NHs.bind (nh_bmp_absRun8 _ _ _ _ s2); intro r' s3 _ h3
-              exact tail r' s3 h3
-
+            apply NHs.bind (nh_bmp_copyRowIf _ _ _ _ _ _ s4); intro d' s5 _ h5
+            repeat' (first
+              | exact nh_ioErr s5
+              | exact bmp_rleLoop_nhs i pitch st dimx dimy pal yend yinc fuel _ _ s5 (by omega)
+              | split)
+          · try dsimp only
+            apply NHs.bind (nh_bmp_absRun _ _ _ _ _ s2); intro r' s3 _ h3
+            apply NHs.bind (nh_bmp_padWord _ _ _ s3); intro r'' s4 _ h4
+            exact bmp_rleLoop_nhs i pitch st dimx dimy pal yend yinc fuel _ _ s4 (by omega)
 
 /-! ## a second logic: "either succeeds or throws a C++ exception" (no `ub`, no `hang`) -/
 
